@@ -181,15 +181,17 @@ CHECKS = {
              "most ten peers plus the new optimistic ones are unchoked (C14_rotation_bound, loop invariant + permutation argument); "
              "every unchoked peer that is not a fresh optimistic pick has declared interest (C14_slots_interested); no peer left "
              "choked although interested has a strictly better rate than a regular slot holder (C14_rate_order: the sort is "
-             "descending and the order splits into a slots-free and a slots-used part). "
+             "descending and the order splits into a slots-free and a slots-used part); the broadcast map holds a peer's new value "
+             "exactly when it changed (C14_map_exact, for optimistic picks among choked peers) and each task turns its entry into one "
+             "Choke/Unchoke frame (C14_messages_follow_map). "
              "Tie: histories of up to 25 peers "
              "with bitfield arrivals, interest changes and rotations (rate orders with ties, optimistic pick as "
              "new_optimistic_peers) on the real Session; after every command the bound (10 + 1), after every rotation the policy "
              "and the exactness of the broadcast map are evaluated on the observed state. Genuine defect (every bitfield sender "
              "unchoked) found and repaired.",
-        note="The rotation's bound and both policy clauses are proved; the exactness of the broadcast map is decided by the correspondence "
-             "oracle only (it depends on new_optimistic_peers choosing among choked peers). Not modelled: broadcast lag; the wrapper's "
-             "random optimistic pick (harness supplies it). No axioms.",
+        note="All clauses are proved for the model; the hypothesis of C14_map_exact (optimistic picks among peers we choke) is what "
+             "new_optimistic_peers' filter guarantees and is exercised by the correspondence with the real picker. Not modelled: "
+             "broadcast lag; the wrapper's random optimistic pick (harness supplies it). No axioms.",
         technique="Coq proof (counting lemmas, loop invariants, sortedness) + per-step differential correspondence with policy oracle",
         design="2/C14"),
     "C18": dict(
